@@ -647,7 +647,7 @@ Proof.
   - eexists; split; [reflexivity|]. apply Inv_wake.
     unfold Inv; cbn. intros He s Hs. apply sel_inv_app. apply HI; auto.
   - eexists; split; [reflexivity|]. apply notify_result_Inv; auto.
-  - eexists; split; [reflexivity|]. destruct (fix45 && negb (aw_has p (p_awaiting st))); auto. apply Inv_error.
+  - eexists; split; [reflexivity|]. destruct (fix45 && negb (aw_has p (p_awaiting st))); [apply Inv_wake; auto|apply Inv_error].
   - eexists; split; [reflexivity|]. apply Inv_wake; auto.
   - destruct (aw_has p (p_awaiting st)); [destruct r|]; eexists; split; try reflexivity; auto.
     + apply notify_result_Inv; auto.
@@ -964,7 +964,7 @@ Proof.
   - inversion H; subst. unfold start_ge, wake. destruct (p_selecting _); cbn; exact Hge.
   - inversion H; subst. unfold start_ge, notify_result, wake.
     destruct (fix45 && _); destruct (p_selecting _); cbn; exact Hge.
-  - inversion H; subst. destruct (fix45 && _); unfold start_ge; cbn; exact Hge.
+  - inversion H; subst. destruct (fix45 && _); unfold start_ge, wake; [destruct (p_selecting _)|]; cbn; exact Hge.
   - inversion H; subst. unfold start_ge, wake. destruct (p_selecting _); cbn; exact Hge.
   - destruct (aw_has p (p_awaiting st)); [destruct r|]; inversion H; subst; auto.
     all: try (unfold start_ge, notify_result, wake; destruct (fix45 && _); destruct (p_selecting _); cbn; exact Hge).
@@ -1122,10 +1122,13 @@ Proof.
 Qed.
 
 (* the same history under the repair *)
+Definition f45_state_fixed : proc :=
+  {| p_mailbox := []; p_awaiting := []; p_sel := None; p_queued := true; p_selecting := false;
+     p_value := Some VNil; p_error := None |}.
+
 Example stale_await_witness_repaired :
-  exists st, run true no_verdict f45_written f45_events (initial [] []) = Val st /\
-             p_value st = Some VNil /\ p_error st = None /\ p_awaiting st = [].
-Proof. eexists. vm_compute. repeat split. Qed.
+  run true no_verdict f45_written f45_events (initial [] []) = Val f45_state_fixed.
+Proof. vm_compute. reflexivity. Qed.
 
 (* ---------------------------------------------------------------- non-vacuity *)
 (* `! [p0, &f, 50]` with a filter that rejects message 4, accepts message 2 (payload 77) and would
@@ -1137,23 +1140,216 @@ Definition ex_verdict : nat -> msg -> verdict :=
   fun r m => match fst m with 2 => Truthy 77 | 3 => VdErr InvalidArgument | _ => VdNil end.
 Definition ex_events : list event := [EStep 0%Z; EMsg (3, 2); EStep 1%Z; EStep 2%Z].
 
+Definition ex_mb0 : list msg := [(4, 0); (2, 1)].
+Definition ex_st : proc :=
+  Eval vm_compute in
+    match run false ex_verdict ex_written ex_events (initial ex_mb0 []) with Val st => st | _ => initial [] [] end.
+Definition ex_st' : proc :=
+  Eval vm_compute in
+    match step false ex_verdict ex_written 2%Z ex_st with Val st => st | _ => initial [] [] end.
+
 Example ex_select_completes :
-  exists st st',
-    run false ex_verdict ex_written ex_events (initial [(4, 0); (2, 1)] []) = Val st /\
-    p_value st = None /\
-    (exists s, p_sel st = Some s /\ ss_cursors s = [1] /\ ss_receiving s = Some (0, (2, 1)) /\ ss_start s = Some 1%Z) /\
-    step false ex_verdict ex_written 2%Z st = Val st' /\
-    p_value st' = Some (VMsg (2, 1)) /\ p_mailbox st' = [(4, 0); (3, 2)] /\
-    select_spec ex_verdict ex_written (p_mailbox st) (p_awaiting st) 1%Z 2%Z = Complete (VMsg (2, 1)) [(4, 0); (3, 2)].
+    run false ex_verdict ex_written ex_events (initial ex_mb0 []) = Val ex_st /\
+    p_value ex_st = None /\
+    (exists s, p_sel ex_st = Some s /\ ss_cursors s = [1] /\ ss_receiving s = Some (0, (2, 1)) /\ ss_start s = Some 1%Z) /\
+    step false ex_verdict ex_written 2%Z ex_st = Val ex_st' /\
+    p_value ex_st' = Some (VMsg (2, 1)) /\ p_mailbox ex_st' = [(4, 0); (3, 2)] /\
+    select_spec ex_verdict ex_written (p_mailbox ex_st) (p_awaiting ex_st) 1%Z 2%Z = Complete (VMsg (2, 1)) [(4, 0); (3, 2)].
 Proof.
-  eexists. eexists. vm_compute. repeat split. eexists. repeat split.
+  split; [vm_compute; reflexivity|]. split; [reflexivity|].
+  split; [eexists; split; [reflexivity|]; repeat split|].
+  split; [vm_compute; reflexivity|]. repeat split; vm_compute; reflexivity.
 Qed.
 
 (* a parked select with two sources whose timeout then fires, not early *)
+Definition ex2_written : list source := [SrcRecv [0] true; SrcTimeout 5%Z].
+Definition ex2_st : proc :=
+  Eval vm_compute in
+    match run false no_verdict ex2_written [EStep 10%Z; EStep 10%Z; EStep 14%Z] (initial [(7, 1)] []) with
+    | Val st => st | _ => initial [] [] end.
+Definition ex2_st' : proc :=
+  Eval vm_compute in match step false no_verdict ex2_written 15%Z ex2_st with Val st => st | _ => initial [] [] end.
+
 Example ex_timeout_fires :
-  exists st st',
-    run false no_verdict [SrcRecv [0] true; SrcTimeout 5%Z] [EStep 10%Z; EStep 10%Z; EStep 14%Z] (initial [(7, 1)] []) = Val st /\
-    p_selecting st = true /\ p_value st = None /\
-    step false no_verdict [SrcRecv [0] true; SrcTimeout 5%Z] 15%Z st = Val st' /\
-    p_value st' = Some VNil /\ p_mailbox st' = [(7, 1)].
-Proof. eexists. eexists. vm_compute. repeat split. Qed.
+    run false no_verdict ex2_written [EStep 10%Z; EStep 10%Z; EStep 14%Z] (initial [(7, 1)] []) = Val ex2_st /\
+    p_selecting ex2_st = true /\ p_value ex2_st = None /\
+    step false no_verdict ex2_written 15%Z ex2_st = Val ex2_st' /\
+    p_value ex2_st' = Some VNil /\ p_mailbox ex2_st' = [(7, 1)].
+Proof.
+  split; [vm_compute; reflexivity|]. split; [reflexivity|]. split; [reflexivity|].
+  split; [vm_compute; reflexivity|]. split; reflexivity.
+Qed.
+
+(* ---------------------------------------------------------------- F45, repaired: the theorem *)
+Lemma aw_has_insert p q v aw : aw_has p (aw_insert q v aw) = (Nat.eqb p q || aw_has p aw)%bool.
+Proof.
+  unfold aw_has. induction aw as [|[k w] aw IH]; cbn.
+  - destruct (Nat.eqb p q); reflexivity.
+  - destruct (Nat.eqb q k) eqn:Eqk; cbn.
+    + apply Nat.eqb_eq in Eqk. subst k. destruct (Nat.eqb p q) eqn:Epq; cbn; auto.
+    + destruct (Nat.eqb p k) eqn:Epk; cbn; auto. destruct (Nat.eqb p q); reflexivity.
+Qed.
+
+Lemma aw_has_remove p q aw : aw_has p (aw_remove q aw) = (negb (Nat.eqb p q) && aw_has p aw)%bool.
+Proof.
+  unfold aw_has. induction aw as [|[k w] aw IH]; cbn.
+  - rewrite andb_false_r. reflexivity.
+  - destruct (Nat.eqb q k) eqn:Eqk; cbn.
+    + apply Nat.eqb_eq in Eqk. subst k. rewrite IH.
+      destruct (Nat.eqb p q) eqn:Epq; cbn; auto.
+    + destruct (Nat.eqb p k) eqn:Epk; cbn; auto.
+      apply Nat.eqb_eq in Epk. subst k.
+      assert (Nat.eqb p q = false) as -> by (rewrite Nat.eqb_sym; exact Eqk). reflexivity.
+Qed.
+
+Lemma aw_has_fold_insert p : forall ps aw,
+  aw_has p (fold_left (fun aw q => aw_insert q None aw) ps aw) = true -> In p ps \/ aw_has p aw = true.
+Proof.
+  induction ps as [|q ps IH]; intros aw H; cbn in H; auto.
+  apply IH in H. destruct H as [H|H]; [left; right; auto|].
+  rewrite aw_has_insert in H. apply orb_true_iff in H. destruct H as [H|H]; auto.
+  apply Nat.eqb_eq in H. left; left; auto.
+Qed.
+
+Lemma aw_has_fold_remove p : forall ps aw,
+  aw_has p (fold_left (fun aw q => aw_remove q aw) ps aw) = true -> ~ In p ps /\ aw_has p aw = true.
+Proof.
+  induction ps as [|q ps IH]; intros aw H; cbn in H; auto.
+  apply IH in H. destruct H as (Hn & H). rewrite aw_has_remove in H.
+  apply andb_true_iff in H. destruct H as (Hne & H). split; auto.
+  intros [->|Hin]; auto. rewrite Nat.eqb_refl in Hne. discriminate.
+Qed.
+
+Lemma process_sources_ok_sources s0 rr start now aw : forall srcs r s mb,
+  match process_sources s0 rr start now aw srcs r s mb with
+  | SCalled s' | SPark s' | SError _ s' => ss_sources s' = ss_sources s
+  | _ => True
+  end.
+Proof.
+  induction srcs as [|[p|c t|d|e] rest IH]; intros r s mb; cbn [process_sources]; auto.
+  - destruct (aw_get p aw) as [[x|]|]; auto; apply IH.
+  - unfold handle_select_receive.
+    assert (Hscan : forall s1, match scan_mailbox r c t s0 s1 mb with
+                               | RCalled s' | RContinue s' | RErr _ s' => ss_sources s' = ss_sources s1
+                               | _ => True end).
+    { intros s1. unfold scan_mailbox.
+      destruct (scan c (skipn (cur_get r (ss_cursors s1)) mb) _ _); [destruct t; auto|].
+      - destruct (Nat.ltb r (length (ss_cursors s1))); auto.
+      - destruct (Nat.ltb _ _); auto. destruct (Nat.ltb r (length (ss_cursors s1))); auto. }
+    assert (Hgo : forall s1, ss_sources s1 = ss_sources s ->
+              match match scan_mailbox r c t s0 s1 mb with
+                    | RComplete v mb' => SComplete v mb'
+                    | RCalled s' => SCalled s'
+                    | RContinue s' => process_sources s0 rr start now aw rest (S r) s' mb
+                    | RErr e s' => SError e s'
+                    | RPanic n => SPanic n
+                    end with
+              | SCalled s' | SPark s' | SError _ s' => ss_sources s' = ss_sources s
+              | _ => True
+              end).
+    { intros s1 Hs1. specialize (Hscan s1).
+      destruct (scan_mailbox r c t s0 s1 mb) as [v mb'|s'|s'|e s'|n]; auto; try congruence.
+      specialize (IH (S r) s' mb).
+      destruct (process_sources s0 rr start now aw rest (S r) s' mb); auto; congruence. }
+    destruct (ss_receiving s0) as [[idx m]|]; [|apply Hgo; auto].
+    destruct (Nat.eqb idx r); [|apply Hgo; auto].
+    destruct rr as [[n|]|]; auto.
+    destruct (Nat.ltb r (length (ss_cursors s))); auto.
+    apply Hgo. reflexivity.
+  - destruct (timeout_ready d start now); auto. apply IH.
+Qed.
+
+
+Section F45Fixed.
+Variable verdict_of : nat -> msg -> verdict.
+Variable written : list source.
+
+(* while the select is running only its own targets are awaited; once it is over, nothing is *)
+Definition keys_ok (st : proc) : Prop :=
+  (forall s, p_sel st = Some s -> ss_sources s = written) /\
+  forall p, aw_has p (p_awaiting st) = true -> p_value st = None /\ In p (pids_of written).
+
+Lemma notify_result_keys p v st : keys_ok st -> keys_ok (notify_result true p v st).
+Proof.
+  intros (Hs & Hk). unfold notify_result. cbn [andb].
+  assert (G : keys_ok (if negb (aw_has p (p_awaiting st)) then st
+                       else set_awaiting st (aw_insert p (Some v) (p_awaiting st)))).
+  { destruct (aw_has p (p_awaiting st)) eqn:E; cbn [negb]; [|split; auto].
+    split; [exact Hs|]. cbn. intros q Hq. rewrite aw_has_insert in Hq.
+    apply orb_true_iff in Hq. destruct Hq as [Hq|Hq]; auto. apply Nat.eqb_eq in Hq. subst q. auto. }
+  unfold wake. destruct (p_selecting _); auto.
+Qed.
+
+Lemma step_keys now st st' : keys_ok st -> step true verdict_of written now st = Val st' -> keys_ok st'.
+Proof.
+  intros (Hs & Hk) Hstep.
+  destruct (check_expired_fields now st) as (Fmb & Faw & Fsel & Fval & Ferr).
+  assert (Hce : keys_ok (check_expired now st)).
+  { unfold keys_ok. rewrite Fsel, Faw, Fval. auto. }
+  unfold step in Hstep.
+  destruct (negb (p_queued (check_expired now st))).
+  { inversion Hstep; subst. exact Hce. }
+  destruct (p_error (check_expired now st)).
+  { inversion Hstep; subst. exact Hce. }
+  destruct (p_value (check_expired now st)) eqn:Ev.
+  { inversion Hstep; subst. exact Hce. }
+  destruct Hce as (Hs1 & Hk1).
+  destruct (p_sel (check_expired now st)) as [s|] eqn:Hsel.
+  - pose proof (Hs1 s eq_refl) as Hsrc.
+    destruct (match ss_receiving s with Some (r, m) => Some (verdict_of r m) | None => None end) as [[n| |e]|].
+    3:{ inversion Hstep; subst. unfold keys_ok. cbn. rewrite Hsel. auto. }
+    all: match type of Hstep with context [process_sources ?a ?b ?c ?d ?e ?f ?g ?h ?i] =>
+           pose proof (process_sources_ok_sources a b c d e f g h i) as Hsr;
+           destruct (process_sources a b c d e f g h i) end;
+         inversion Hstep; subst; unfold keys_ok; cbn.
+    all: try (split; [intros s2 H2; inversion H2; subst; cbn in Hsr; congruence|exact Hk1]).
+    all: try (split; [intros s2 H2; discriminate H2|]; intros p Hp; exfalso;
+              apply aw_has_fold_remove in Hp; destruct Hp as (Hn & Hp);
+              apply Hn; rewrite Hsrc; apply (Hk1 p Hp)).
+  - inversion Hstep; subst. unfold initialize_select.
+    destruct (pids_of written) as [|q qs] eqn:Ep; unfold keys_ok; cbn.
+    + split; [intros s2 H2; inversion H2; reflexivity|]. intros p Hp. specialize (Hk1 p Hp). rewrite ?Ep. exact Hk1.
+    + split; [intros s2 H2; inversion H2; reflexivity|]. intros p Hp. split; auto.
+      apply (aw_has_fold_insert p (q :: qs)) in Hp. rewrite ?Ep. destruct Hp as [Hp|Hp]; auto.
+      specialize (Hk1 p Hp). apply Hk1.
+Qed.
+
+Lemma apply_event_keys ev st st' :
+  keys_ok st -> apply_event true verdict_of written ev st = Val st' -> keys_ok st'.
+Proof.
+  intros HK H. destruct ev as [now|m|p v|p| |p r]; cbn [apply_event andb] in H.
+  - eapply step_keys; eauto.
+  - inversion H; subst. destruct HK as (A & B). unfold wake. destruct (p_selecting _); split; auto.
+  - inversion H; subst. apply notify_result_keys; auto.
+  - inversion H; subst. destruct HK as (A & B).
+    destruct (negb (aw_has p (p_awaiting st))); [unfold wake; destruct (p_selecting _)|]; split; auto.
+  - inversion H; subst. destruct HK as (A & B). unfold wake. destruct (p_selecting _); split; auto.
+  - destruct (aw_has p (p_awaiting st)); [destruct r|]; inversion H; subst; auto.
+    all: try (apply notify_result_keys; auto).
+    all: try (destruct HK as (A & B); split; auto).
+Qed.
+
+Lemma run_keys : forall evs st st',
+  keys_ok st -> run true verdict_of written evs st = Val st' -> keys_ok st'.
+Proof.
+  induction evs as [|ev evs IH]; intros st st' HK H; cbn [run] in H.
+  - inversion H; subst; auto.
+  - destruct (apply_event true verdict_of written ev st) as [st1| |] eqn:E; cbn [obind] in H; try discriminate.
+    eapply (IH st1 st'); auto. eapply apply_event_keys; eauto.
+Qed.
+
+End F45Fixed.
+
+(* with the repair, a process whose select has completed survives the later failure of any
+   process: nothing is awaited any more *)
+Theorem completed_select_survives_repaired : completed_select_survives true.
+Proof.
+  intros verdict written evs mb st p st' Hrun Hv He Hev.
+  assert (HK : keys_ok written st).
+  { eapply run_keys; eauto. split; [intros s H; discriminate H|]. intros q Hq. discriminate Hq. }
+  destruct HK as (_ & HK).
+  cbn [apply_event andb] in Hev.
+  destruct (aw_has p (p_awaiting st)) eqn:E.
+  - destruct (HK p E) as (Hn & _). contradiction.
+  - cbn [negb] in Hev. inversion Hev; subst. unfold wake. destruct (p_selecting st); exact He.
+Qed.
